@@ -86,6 +86,13 @@ def _raises_only(cfg: CFG, start: N, label: str, target: N) -> bool:
     return True
 
 
+# members of the joined path that only probe, read or test containment (anything else - expanduser, parent, resolve, with_name … - moves it)
+USE_AS_IS = {
+    "is_file", "is_dir", "exists", "stat", "lstat", "open", "read_text", "read_bytes", "as_posix", "relative_to", "is_relative_to", "samefile",
+    "name", "stem", "suffix", "suffixes", "parts", "is_absolute", "__str__", "__fspath__", "is_symlink", "match",
+}
+
+
 def run(prog: Program, res: Result) -> None:
     res.explanation = (
         "For every function in liquid2/builtin/loaders and liquid2/loader.py that joins a value derived from a "
@@ -213,6 +220,26 @@ def run(prog: Program, res: Result) -> None:
                             ok = isinstance(val.func.value, ast.Name) and val.func.value.id in closure and all(not (_names(a) & params) for a in val.args)
                         if not ok:
                             bad_rederive = stmt
+                # (iv) the joined path is used as it is: only probing / reading / containment-testing members are touched on it
+                joined_names = {tgt for tgt, val, _ in assigns if any(y is join for y in ast.walk(val))}
+                rewrites = []
+                for x in ast.walk(fi.node):
+                    if isinstance(x, ast.Attribute) and (x.value is join or (isinstance(x.value, ast.Name) and x.value.id in joined_names)) and x.attr not in USE_AS_IS:
+                        rewrites.append(x)
+                    if isinstance(x, ast.Call) and (dotted(x.func) or "") in ("os.path.expanduser", "os.path.expandvars", "os.path.realpath", "os.path.normpath", "os.path.abspath") and any((a is join) or (isinstance(a, ast.Name) and a.id in joined_names) for a in x.args):
+                        rewrites.append(x)
+                if rewrites and "contained" not in have:
+                    rw = rewrites[0]
+                    res.fail(
+                        "C13.R1",
+                        file=fi.file,
+                        line=rw.lineno,
+                        qualname=fi.qualname,
+                        construct=f"{fi.qualname}: joined path rewritten by {norm(rw, 60)} after the guards",
+                        message=f"the path built from the caller-supplied name is rewritten after the confinement guards (`{norm(rw, 70)}`): expanduser/expandvars/parent/resolve can move it outside the search root the guards were about ('~/x' joined onto '.' becomes $HOME/x)",
+                        what=what,
+                    )
+                    continue
                 if bad_rederive is not None:
                     res.fail(
                         "C13.R1",
